@@ -1205,6 +1205,20 @@ def store_attr(interp, obj, name, value, node):
         raise ModelFault("AttributeError", str(e), node)
 
 
+def _is_generator(fn):
+    """does the function body (not nested definitions) yield?"""
+    stack = list(fn.body) if not isinstance(fn, ast.Lambda) else []
+    while stack:
+        n = stack.pop()
+        if isinstance(n, (ast.Yield, ast.YieldFrom)):
+            return True
+        if isinstance(n, (ast.FunctionDef, ast.AsyncFunctionDef, ast.Lambda,
+                          ast.ClassDef)):
+            continue
+        stack.extend(ast.iter_child_nodes(n))
+    return False
+
+
 class Interp:
     def __init__(self, repo):
         self.repo = repo
@@ -1269,6 +1283,16 @@ class Interp:
         try:
             if isinstance(node, ast.Lambda):
                 return self.eval(node.body, frame)
+            if _is_generator(node):
+                # generator function: the body is run to its end, the
+                # yielded values are handed out afterwards (finite models;
+                # an endless generator hits the loop limit)
+                frame.loc["<yield>"] = []
+                try:
+                    self.block(node.body, frame)
+                except _Return:
+                    pass
+                return iter(frame.loc.pop("<yield>"))
             try:
                 self.block(node.body, frame)
             except _Return as r:
@@ -1792,6 +1816,24 @@ class Interp:
         self._comp(e.generators, f, lambda fr: out.__setitem__(
             self.eval(e.key, fr), self.eval(e.value, fr)))
         return out
+
+    def _yield_sink(self, f, node):
+        fr = f
+        while fr is not None:
+            if "<yield>" in fr.loc:
+                return fr.loc["<yield>"]
+            fr = fr.parent
+        raise AnalysisError(f"yield outside a generator function "
+                            f"({loc(node)})")
+
+    def e_Yield(self, e, f):
+        self._yield_sink(f, e).append(
+            None if e.value is None else self.eval(e.value, f))
+        return None
+
+    def e_YieldFrom(self, e, f):
+        self._yield_sink(f, e).extend(self.iterate(self.eval(e.value, f), e))
+        return None
 
     def e_Starred(self, e, f):
         raise AnalysisError("starred expression outside a call/list")
